@@ -343,7 +343,15 @@ func (e *Exec) strSlice(st *State, fr *Frame, x *ssa.Slice, s *Term, site string
 		return []*State{st}
 	}
 	li, hi2 := bvToInt(lo), bvToInt(hi)
-	bad := Or(BVCmp("bvslt", lo, BVConst(0, 64)), BVCmp("bvslt", hi, lo), Not(intLe(hi2, strLenInt(s))))
+	var bad *Term
+	if pureInt(lo) && pureInt(hi) {
+		// bounds that come from string functions (int2bv of small non-negative or -1 integers, plus constants):
+		// compare in the integer domain, which string solvers handle far better than int2bv round trips
+		li, hi2 = intView(lo), intView(hi)
+		bad = Or(intLt(li, IntConst(0)), intLt(hi2, li), Not(intLe(hi2, strLenInt(s))))
+	} else {
+		bad = Or(BVCmp("bvslt", lo, BVConst(0, 64)), BVCmp("bvslt", hi, lo), Not(intLe(hi2, strLenInt(s))))
+	}
 	ok, outs := e.guard(st, bad, "slice bounds out of range", site)
 	if ok != nil {
 		ok.Top().Env[x] = strSubstr(s, li, intSub(hi2, li))
@@ -385,4 +393,32 @@ func intToBV(i *Term, w int) *Term {
 		return BVConst(i.U, w)
 	}
 	return mk("int2bv", BV(w), 0, 0, "", i)
+}
+
+// pureInt: the bit-vector term is an int2bv image of an integer term (possibly plus/minus constants)
+func pureInt(t *Term) bool {
+	switch {
+	case t.IsConst():
+		return true
+	case t.Op == "int2bv":
+		return true
+	case t.Op == "bvadd" || t.Op == "bvsub":
+		return pureInt(t.Args[0]) && pureInt(t.Args[1])
+	}
+	return false
+}
+
+// intView: the integer the term denotes, assuming no wrap-around (string lengths and indices are tiny)
+func intView(t *Term) *Term {
+	switch {
+	case t.IsConst():
+		return IntConst(t.SVal())
+	case t.Op == "int2bv":
+		return t.Args[0]
+	case t.Op == "bvadd":
+		return intAdd(intView(t.Args[0]), intView(t.Args[1]))
+	case t.Op == "bvsub":
+		return intSub(intView(t.Args[0]), intView(t.Args[1]))
+	}
+	return bvToInt(t)
 }
